@@ -1,10 +1,14 @@
 #!/bin/bash
 # run every check of MANIFEST.json in the given tier (default quick); prints exit codes
+here=$(cd "$(dirname "$0")" && pwd)
 tier=${1:-quick}
-for p in C01 C02 C09 C10 C11 C12 C14 C16 C18 C19 C20; do
+shift
+checks=${@:-C01 C02 C09 C10 C11 C12 C14 C16 C18 C19 C20}
+for p in $checks; do
   s=$(date +%s)
-  /venv/bin/python /verif/depsim/check.py $p --tier $tier > /tmp/depsim_$p.out 2>/tmp/depsim_$p.err
+  /venv/bin/python $here/depsim/check.py $p --tier $tier > /tmp/depsim_$p.$tier.out 2>/tmp/depsim_$p.$tier.err
   rc=$?
   e=$(date +%s)
-  echo "$p rc=$rc $((e-s))s $(grep -c KNOWN-FINDING /tmp/depsim_$p.out) known | $(tail -1 /tmp/depsim_$p.out | cut -c1-200)"
+  echo "$p rc=$rc $((e-s))s $(grep -c KNOWN-FINDING /tmp/depsim_$p.$tier.out) known | $(tail -1 /tmp/depsim_$p.$tier.out | cut -c1-200)"
+  grep -h "VIOLATION\|HARNESS-ERROR\|WARNING" /tmp/depsim_$p.$tier.out /tmp/depsim_$p.$tier.err | cut -c1-300
 done
